@@ -34,6 +34,10 @@ class Holder:
             if v.kind == "mut" and len(v.kids) == 2 and v.kids[1].kind == "call":
                 # out-parameter form: `let mut v = Vec::new(); self.select(.., &mut v)?; self.hs_disclosures = v`
                 v = v.kids[1]
+            if v.kind == "phi":
+                # `if claims_to_disclose.is_empty() { Vec::new() } else { self.select(..)? }`: an empty selection selects nothing,
+                # so the empty list on exactly that edge is what the walker would return
+                v = self._phi_with_empty_fast_path(v) or v
             if v.kind == "call" and v.d["term"].get("resolved_local"):
                 self.sel_entry = fx.view(v.d["term"]["resolved"])
                 self.sel_call = v
@@ -46,6 +50,38 @@ class Holder:
                         and ((f.raw.get("ret_ty") or "").startswith("std::result::Result<" + VEC_S) or self.out_param(f) is not None)]
         self.sel_all = [f for f in fx.subjects(sorted(cg.reachable_from(self.g, [self.sel_entry.name]))) if f.name.startswith("holder::")]
         self.ok = True
+
+    def _phi_with_empty_fast_path(self, ph):
+        """the selection call when `ph` merges exactly one crate-local call with empty-vector constructors that are built only where the
+        selection parameter is empty (`is_empty()` true edge); None otherwise"""
+        import cfg as _cfg
+        P = self.present
+        calls, empties = [], []
+        for a in ph.kids:
+            if a.kind == "cycle":
+                continue
+            x = peel(a)
+            while x.kind in ("variant", "field") and x.kids:
+                x = peel(x.kids[0])
+            x = common._outcome_root(x)
+            if x.kind == "call" and x.d["term"].get("resolved_local"):
+                calls.append(x)
+            elif x.kind == "call" and x.d["term"].get("name") in ("new", "default") and not x.kids and (x.d["term"].get("resolved") or "").startswith(("std::vec::Vec", "<std::vec::Vec")):
+                empties.append(x)
+            else:
+                return None
+        if len(calls) != 1 or not empties:
+            return None
+        good = []
+        for (bb, tt, ft, c) in common.bool_switches(P):
+            if c.kind == "call" and c.d["term"].get("name") == "is_empty" and c.kids and peel(c.kids[0]).kind == "param" and "Map<" in (P.local_ty(peel(c.kids[0]).d["idx"]) or ""):
+                good.append((bb, tt))
+        if not good:
+            return None
+        for e in empties:
+            if e.d.get("bb") is None or not common.guarded(P, e.d["bb"], good):
+                return None
+        return calls[0]
 
     def _field_out_param(self, fx):
         """the field itself is the out-parameter: `self.hs_disclosures.clear(); select(.., &mut self.hs_disclosures)?`. Accepted when the
